@@ -21,8 +21,25 @@ NA = {
  'C19': 'interpolation, equivariance and alignment invariance are relations between numerical outputs; the one structural defect in this area (ape/rpe mutating their timestamp argument) is decided under C06.MUT',
 }
 
+def inventory(built):
+    import importlib
+    from sa.core import Repo
+    inv = {}
+    repo = Repo('/repo')
+    for p in built:
+        mod = importlib.import_module('sa.rules.' + p.lower())
+        inv[p] = [{'rule': r.rule, 'text': r.text} for r in mod.rules(repo, 'quick')]
+    here = os.path.dirname(os.path.abspath(__file__))
+    with open(os.path.join(here, 'sa', 'rule_inventory.json'), 'w') as fh:
+        json.dump(inv, fh, indent=1)
+    import sa.registry as reg
+    reg._load_inventory()
+    return inv
+
+
 def main():
     built = sorted(p for p in PROPS if os.path.exists(os.path.join(os.path.dirname(os.path.abspath(__file__)), 'sa', 'rules', p.lower() + '.py')))
+    inv = inventory(built)
     checks = []
     for p in built:
         checks.append({
@@ -40,7 +57,8 @@ def main():
             'level_note': 'trusted base: CPython ast; torch view/copy and status-return tables in sa/; documented argument shapes used as seeds '
                           'of the dimension typing; Lie-theoretic facts behind the variance table; loops unrolled twice; dynamic dispatch '
                           'through user objects opaque',
-            'technique': TECH.get(p, 'static analysis'),
+            'technique': TECH.get(p, 'static analysis') + '; alias/effect purity summaries, data-taint memo rule (identity-keyed caches, '
+                         'outliving stores), freshness of in-place destinations (all AST-based, nothing executed); %d rules' % len(inv[p]),
         })
     na = [{'property_id': k, 'reason': v} for k, v in NA.items()]
     for p in sorted(PROPS):
